@@ -1598,4 +1598,137 @@ theorem setKey_setKey (kvs : List (String × DVal)) (k : String) (x y : DVal) :
     have := hf kv hkv
     simp [this]
 
+/-! ### a flags string names a set -/
+
+/-- the value of a sequence of flag names: `none` as soon as one name is unknown, otherwise the bitwise or -/
+def flagsValue (table : List (String × Int)) : List String → Option Nat
+  | [] => some 0
+  | p :: ps => (lookupLast table p).bind fun v => (flagsValue table ps).map (v.toNat ||| ·)
+
+theorem flagsByName_toOption (ty : String) (table : List (String × Int)) (parts : List String) :
+    (flagsByName ty table parts).toOption = flagsValue table parts := by
+  induction parts with
+  | nil => rfl
+  | cons p ps ih =>
+    simp only [flagsByName, flagsValue]
+    cases hl : lookupLast table p with
+    | none => rfl
+    | some v =>
+      rw [← ih]
+      cases flagsByName ty table ps <;> rfl
+
+theorem flagsValue_dup (table : List (String × Int)) (p : String) (ps : List String) :
+    flagsValue table (p :: p :: ps) = flagsValue table (p :: ps) := by
+  simp only [flagsValue]
+  cases lookupLast table p with
+  | none => rfl
+  | some v =>
+    cases flagsValue table ps with
+    | none => rfl
+    | some r => simp [← Nat.or_assoc]
+
+theorem flagsValue_swap (table : List (String × Int)) (p q : String) (ps : List String) :
+    flagsValue table (p :: q :: ps) = flagsValue table (q :: p :: ps) := by
+  simp only [flagsValue]
+  cases lookupLast table p with
+  | none => cases lookupLast table q <;> rfl
+  | some v =>
+    cases lookupLast table q with
+    | none => rfl
+    | some w =>
+      cases flagsValue table ps with
+      | none => rfl
+      | some r =>
+        simp only [Option.bind_some, Option.map_some, Option.some.injEq]
+        rw [← Nat.or_assoc, ← Nat.or_assoc, Nat.or_comm v.toNat]
+
+theorem flagsValue_perm (table : List (String × Int)) {l l' : List String} (h : l.Perm l') :
+    flagsValue table l = flagsValue table l' := by
+  induction h with
+  | nil => rfl
+  | cons p _ ih => simp only [flagsValue, ih]
+  | swap p q ps => exact flagsValue_swap table q p ps
+  | trans _ _ ih1 ih2 => exact ih1.trans ih2
+
+theorem flagsValue_mem (table : List (String × Int)) (p : String) (ps : List String) (h : p ∈ ps) :
+    flagsValue table (p :: ps) = flagsValue table ps := by
+  induction ps with
+  | nil => cases h
+  | cons q qs ih =>
+    rcases List.mem_cons.1 h with rfl | h'
+    · exact flagsValue_dup table p qs
+    · rw [flagsValue_swap]
+      simp only [flagsValue] at ih ⊢
+      rw [ih h']
+
+theorem flagsValue_none_name (table : List (String × Int)) (ps : List String) (h : lookupLast table "none" = some 0) :
+    flagsValue table ("none" :: ps) = flagsValue table ps := by
+  simp only [flagsValue, h, Option.bind_some]
+  cases flagsValue table ps <;> simp
+
+
+theorem flagsValue_none_iff (table : List (String × Int)) (l : List String) :
+    flagsValue table l = none ↔ ∃ p ∈ l, lookupLast table p = none := by
+  induction l with
+  | nil => simp [flagsValue]
+  | cons q qs ih =>
+    simp only [flagsValue, List.mem_cons, exists_eq_or_imp]
+    cases hl : lookupLast table q with
+    | none => simp
+    | some v =>
+      simp only [Option.bind_some, Option.map_eq_none_iff, ih]
+      simp
+
+theorem flagsValue_bits (table : List (String × Int)) (l : List String) (r : Nat) (h : flagsValue table l = some r) (k : Nat) :
+    r.testBit k = true ↔ ∃ p ∈ l, ∃ v, lookupLast table p = some v ∧ v.toNat.testBit k = true := by
+  induction l generalizing r with
+  | nil =>
+    simp only [flagsValue, Option.some.injEq] at h
+    subst h; simp
+  | cons q qs ih =>
+    simp only [flagsValue] at h
+    cases hl : lookupLast table q with
+    | none => simp [hl] at h
+    | some v =>
+      cases hr : flagsValue table qs with
+      | none => simp [hl, hr] at h
+      | some r' =>
+        simp only [hl, hr, Option.bind_some, Option.map_some, Option.some.injEq] at h
+        subst h
+        simp only [Nat.testBit_or, Bool.or_eq_true, ih r' hr, List.mem_cons, exists_eq_or_imp, hl, Option.some.injEq,
+          exists_eq_left']
+
+/-- the value of a flags string depends on the *set* of names only -/
+theorem flagsValue_set (table : List (String × Int)) {l l' : List String} (h : ∀ p, p ∈ l ↔ p ∈ l') :
+    flagsValue table l = flagsValue table l' := by
+  cases h1 : flagsValue table l with
+  | none =>
+    obtain ⟨p, hp, hn⟩ := (flagsValue_none_iff table l).1 h1
+    exact ((flagsValue_none_iff table l').2 ⟨p, (h p).1 hp, hn⟩).symm
+  | some r =>
+    cases h2 : flagsValue table l' with
+    | none =>
+      obtain ⟨p, hp, hn⟩ := (flagsValue_none_iff table l').1 h2
+      have := (flagsValue_none_iff table l).2 ⟨p, (h p).2 hp, hn⟩
+      rw [h1] at this; cases this
+    | some r' =>
+      congr 1
+      apply Nat.eq_of_testBit_eq
+      intro k
+      have e1 := flagsValue_bits table l r h1 k
+      have e2 := flagsValue_bits table l' r' h2 k
+      have : (r.testBit k = true) ↔ (r'.testBit k = true) := by
+        rw [e1, e2]
+        constructor
+        · rintro ⟨p, hp, rest⟩; exact ⟨p, (h p).1 hp, rest⟩
+        · rintro ⟨p, hp, rest⟩; exact ⟨p, (h p).2 hp, rest⟩
+      cases hb : r.testBit k <;> cases hb' : r'.testBit k <;> simp_all
+
+theorem enumByName_flags_toOption (ty : String) (ms : List (String × Int)) (s : String) :
+    (enumByName ty true ms s).toOption = (flagsValue (nameTable true ms) (splitBlank s)).map fun n => Val.int (n : Int) := by
+  unfold enumByName
+  simp only [if_true]
+  rw [← flagsByName_toOption ty]
+  cases flagsByName ty (nameTable true ms) (splitBlank s) <;> rfl
+
 end SymbolVerif.Sdk.Descriptor
